@@ -598,6 +598,7 @@ func staticItems(x *index) []staticItem {
 			}
 			for _, s := range f.Services {
 				add("svc", f.Name, s.Full)
+				add("grpc", f.Name, s.Full)
 			}
 		}
 		for _, f := range fam.Deps {
@@ -719,6 +720,50 @@ func describeStatic(x *index, it staticItem) []string {
 				}
 				if !ok {
 					out = append(out, fmt.Sprintf("file %s message %s (%s family): signer option names field %q, which does not exist or is not a string/message", fn, it.name, fam.n, sg))
+				}
+			}
+		}
+	case "grpc":
+		gg, pg := grpcDescs()
+		var want *Service
+		for _, fam := range []Family{x.pulsar, x.gogo} {
+			if f := findFile(fam.Files, it.file); f != nil && want == nil {
+				for i := range f.Services {
+					if f.Services[i].Full == it.name {
+						want = &f.Services[i]
+					}
+				}
+			}
+		}
+		for _, side := range []struct {
+			n string
+			l []GSvc
+		}{{"gogoproto", gg}, {"api", pg}} {
+			var got *GSvc
+			for i := range side.l {
+				if side.l[i].Name == it.name {
+					got = &side.l[i]
+				}
+			}
+			switch {
+			case got == nil:
+				out = append(out, fmt.Sprintf("service %s: the %s family's Go code has no grpc.ServiceDesc of that name", it.name, side.n))
+			case want != nil:
+				if got.Metadata != it.file {
+					out = append(out, fmt.Sprintf("service %s (%s family): grpc.ServiceDesc.Metadata = %q, declared in %q", it.name, side.n, got.Metadata, it.file))
+				}
+				for i, m := range want.Methods {
+					if i >= len(got.Methods) {
+						out = append(out, fmt.Sprintf("service %s (%s family): method %s missing from the grpc.ServiceDesc", it.name, side.n, m.Name))
+						continue
+					}
+					gm := got.Methods[i]
+					if gm.Name != m.Name || (!m.CS && !m.SS && "."+gm.In != m.In) || gm.CS != m.CS || gm.SS != m.SS {
+						out = append(out, fmt.Sprintf("service %s (%s family): grpc.ServiceDesc method #%d is %+v, the descriptor declares %s(%s)", it.name, side.n, i, gm, m.Name, m.In))
+					}
+				}
+				if len(got.Methods) > len(want.Methods) {
+					out = append(out, fmt.Sprintf("service %s (%s family): grpc.ServiceDesc has %d methods, the descriptor %d", it.name, side.n, len(got.Methods), len(want.Methods)))
 				}
 			}
 		}
@@ -1088,6 +1133,8 @@ func execStatic(h History) lib.Case {
 		c.Coq = "SSrc " + coqStr(h.Name)
 	case "dep":
 		c.Coq = "SDep " + coqStr(h.Name)
+	case "grpc":
+		c.Coq = "SGrpc " + coqStr(h.Name)
 	default:
 		c.Coq = "SNone"
 	}
